@@ -75,7 +75,7 @@ var c09Templates = []string{
 	"{{ a ? b : 1 }}", "{{ x = a; x = b; x }}", "{{ loop = a }}",
 	"@if(a)y@elseif(b)z@end",
 	"@each(v in a){{ v }}@end", "@each(v in a)@else e@end", "@each(a in b){{ a }}@end",
-	"@for(i = 0; i < 2; i++){{ a }}@end", "@for(a; b; a)x@break@end", "@for(a; false; a)x@end",
+	"@for(i = 0; i < 2; i++){{ a }}@end", "@for(a; b; a)x@break@end", "@for(a; false; a)x@end", "@for(a; a < 1; a++)x@break@end", "@for(a; a == \"\"; a + \"x\")y@break@end",
 	"@for(; false; )x@end", "@for(i = 0; ; i++)@break@end", "@for(i = 0; i < 1; )@break@end", "@for(;;)@break@end",
 	"@for(i = 0; i < 3; i++)@breakIf(b)x@end",
 	"@each(v in [1, 2])@continueIf(a)x@end",
